@@ -218,7 +218,7 @@ StepRules(st, self, types, cache) ==
   \cup (IF (k = "UpdateValidation" /\ has /\ ~term /\ ~amInit /\ st.panic = "")
            => post.results = (IF script.vres # "" THEN Append(pre.results, script.vres) ELSE pre.results)
         THEN {} ELSE {"C19.recordValidation"})
-  \cup (IF (isReqStim /\ m.kind \in {"New","Restart"} /\ T.hasPost /\ valOK /\ ~term /\ (m.kind = "Restart" => applied("Restart")))
+  \cup (IF (isReqStim /\ m.kind \in {"New","Restart"} /\ T.hasPost /\ valOK /\ ~term /\ (m.kind = "Restart" => applied("Restart")) /\ (m.kind = "New" => ~has))
            => post.results = (IF script.vres # "" THEN Append(base0.results, script.vres) ELSE base0.results)
         THEN {} ELSE {"C19.recordValidation"})
   \cup (IF (T.hasPost => T.postView.panics = << >>) THEN {} ELSE {"C19.total"})
